@@ -36,8 +36,9 @@ L_READS = ["getitem", "len", "iter", "call", "eq", "contains", "count", "index"]
 def plan(tier, seed):
     specs = []
     n = PROGRAMS[tier]
-    pieces = 2 if tier == "quick" else 6
-    for cname, mode in COMBOS:
+    for ci, (cname, mode) in enumerate(COMBOS):
+        # quick: 16 shards in all (one wave on 16 cores)
+        pieces = (2 if ci < 7 else 1) if tier == "quick" else 6
         for pi in range(pieces):
             specs.append({"cls": cname, "mode": mode, "seed": seed, "tier": tier,
                           "start": pi * n // pieces, "count": (pi + 1) * n // pieces - pi * n // pieces})
@@ -168,7 +169,7 @@ def run_shard(spec):
             res = conc.explore(prog, runner, r, spec["tier"],
                                {"cls": prog["cls"], "stratum": meta["stratum"], "topology": meta["topology"],
                                 "shared_tree": meta["shared_tree"], "mode": spec["mode"] or "unbuffered"},
-                               policies=pol)
+                               policies=pol, deadline=t0 + BUDGET[spec["tier"]] * 1.5)
         finally:
             runner.close()
         out["evaluations"] += res["runs"]
@@ -188,6 +189,8 @@ def run_shard(spec):
         sites |= res["sites"]
         if res["inconclusive"]:
             c["inconclusive_runs"] = c.get("inconclusive_runs", 0) + len(res["inconclusive"])
+        if res.get("cut_by_deadline"):
+            c["programs_cut_by_deadline"] = c.get("programs_cut_by_deadline", 0) + 1
         if res["violations"]:
             out["violations"].extend(res["violations"][:1])
         if len(out["samples"]) < 1:
